@@ -86,6 +86,12 @@ MUTANTS = [
     ('testEvents.register counts without the lock (a primitive the run-time semantics assumes)', 'snaps/clean.go',
      '\te.Lock()\n\tdefer e.Unlock()\n\te.items[event]++\n', '\te.items[event]++\n',
      lambda f, rc: rc == 0 and 'prim events.register' in (f.get('failed') or {})),
+    ('naturalSort reports equal for ids natural.Less does not order (the comparator the model assumes)', 'snaps/clean.go',
+     '\tif natural.Less(a, b) {\n\t\treturn -1\n\t}\n\treturn 1\n', '\tif natural.Less(a, b) {\n\t\treturn -1\n\t}\n\tif natural.Less(b, a) {\n\t\treturn 1\n\t}\n\treturn 0\n',
+     lambda f, rc: rc == 0 and 'prim naturalSort' in (f.get('failed') or {})),
+    ('go.mod requires another version of maruel/natural than the Lean model describes', 'go.mod',
+     'github.com/maruel/natural v1.1.1', 'github.com/maruel/natural v1.1.0',
+     lambda f, rc: rc == 0 and 'mod github.com/maruel/natural' in (f.get('failed') or {})),
     ('match.Any no longer fails on a missing path by default', 'match/any.go',
      'errOnMissingPath: true,\n\t\tplaceholder:', 'errOnMissingPath: false,\n\t\tplaceholder:',
      lambda f, rc: rc == 0 and 'prim Any' in (f.get('failed') or {})),
@@ -263,6 +269,7 @@ def main():
         try:
             for sub in ('snaps', 'match', 'internal'):
                 shutil.copytree(os.path.join(REPO, sub), os.path.join(d, sub), ignore=shutil.ignore_patterns('__snapshots__', 'testdata'))
+            shutil.copy(os.path.join(REPO, 'go.mod'), os.path.join(d, 'go.mod'))
             p = os.path.join(d, rel)
             src = open(p).read()
             if old not in src:
